@@ -263,6 +263,18 @@ fn maybe_abort(ev: &Event<'_>) {
             }
         }
     };
+    // Directory entries: the file systems nomt runs on (ext4, xfs, btrfs, apfs) journal the operations on one
+    // directory in issue order, so a power loss takes away a SUFFIX of the un-synced creates / unlinks, never an
+    // earlier one while a later one stays. (Data pages have no such order: any subset of them may be lost.)
+    let mut lose = lose;
+    let is_dir_op = |k: Kind| matches!(k, Kind::Create | Kind::Unlink);
+    if let Some(first) = lose.iter().filter(|&&i| is_dir_op(s.journal[i].kind)).map(|&i| s.journal[i].begin_order).min() {
+        for &i in &uns {
+            if is_dir_op(s.journal[i].kind) && s.journal[i].begin_order > first && !lose.contains(&i) {
+                lose.push(i);
+            }
+        }
+    }
     revert(&mut s.journal, &lose);
     cleanup_backups(&s.journal, &lose);
     s.log.push(Ev { idx, file: format!("ABORT unsynced={} lost={}", uns.len(), lose.len()), kind: ev.kind, phase: Phase::Begin, offset: ev.offset, len: ev.len, site: ev.site, thread: thread_id() });
